@@ -12,13 +12,18 @@ import (
 	"github.com/stretchr/testify/assert"
 	"pgregory.net/rapid"
 
+	"github.com/form3tech-oss/f1/v2/internal/metrics"
 	f1testing "github.com/form3tech-oss/f1/v2/pkg/f1/testing"
 	"github.com/form3tech-oss/f1/v2/verifharness/vlib"
 )
 
 var stats = vlib.NewStats("C07")
 
-func TestMain(m *testing.M) { vlib.Main(m, stats) }
+func TestMain(m *testing.M) {
+	// T.Time records into the process-wide metrics instance, which the CLI initialises at start-up
+	metrics.Init(false)
+	vlib.Main(m, stats)
+}
 
 type behaviour struct {
 	Name           string
@@ -73,6 +78,10 @@ var behaviours = []behaviour{
 	{Name: "pass-with-FailNow-cleanup", Do: func(t *f1testing.T) { t.Cleanup(func() { t.FailNow() }) }},
 	{Name: "pass-with-Fail-cleanup", Do: func(t *f1testing.T) { t.Cleanup(func() {}); t.Cleanup(func() { t.Fail() }) }},
 	{Name: "Fail-with-panicking-cleanup", Fails: true, Do: func(t *f1testing.T) { t.Cleanup(func() { panic(errSentinel) }); t.Fail() }},
+	{Name: "pass-inside-Time", Do: func(t *f1testing.T) { t.Time("stage", func() {}) }},
+	{Name: "panic-inside-Time", Fails: true, Do: func(t *f1testing.T) { t.Time("stage", func() { panic("timed stage panic") }) }},
+	{Name: "runtime-error-inside-Time", Fails: true, NonStringPanic: true, Do: func(t *f1testing.T) { t.Time("stage", func() { var m map[int]int; m[1] = 1 }) }},
+	{Name: "FailNow-inside-Time", Fails: true, Do: func(t *f1testing.T) { t.Time("stage", func() { t.FailNow() }) }},
 	{Name: "cleanup-then-FailNow", Fails: true, Do: func(t *f1testing.T) { t.Cleanup(func() {}); t.FailNow() }},
 	{Name: "pass-with-cleanup", Do: func(t *f1testing.T) { t.Cleanup(func() {}) }},
 }
